@@ -1,7 +1,7 @@
 (* C13 — pinned statements: each Check fails to compile if the theorem's statement drifts. *)
 From Coq Require Import List NArith ZArith Bool.
 Import ListNotations.
-From NV Require Import Codec.Escape Codec.Ident Codec.Num Codec.YamlScalar Codec.SourcePins.
+From NV Require Import Codec.Escape Codec.Ident Codec.Num Codec.YamlScalar Codec.SourcePins Codec.Loaders.
 From NV Require Import Gen.Keywords.
 From NV Require Import Props.C13.
 
@@ -31,6 +31,8 @@ Check (C13_yaml_string_survives_under_contract :
   forall (writes_plain : str -> bool) (quoted : style), quoted <> Plain -> emitter_meets_contract writes_plain ->
   forall s, resolve (if writes_plain s then Plain else quoted) None s = RStr s).
 Check (C13_yaml_contract_necessary : forall s, nonstring_spelling s = true -> resolve Plain None s <> RStr s).
+Check (C13_loaders_agree : forall t : jtree, in_scope t = true ->
+  loader_run (events t) = Some (denote t) /\ serde_run (events t) = Some (denote t)).
 (* the definitions the statements are about are the executable ones (not re-bound) *)
 Check (eq_refl : i64_min = (- 2 ^ 63)%Z).
 Check (eq_refl : u64_max = (2 ^ 64 - 1)%Z).
